@@ -560,6 +560,8 @@ def _run(ctx, thorough, pool_bin, work, rng, replay):
     vres = par(vjobs, 4)
     validated_runs = 0
     judged_runs = 0
+    clean_files = []        # accepted entirely by both levels: material for the self-test
+    explained = [0]         # model states printed for drift reports (one extra TLC run each): only the first two
     for fi, tf in enumerate(allf):
         lines = open(tf).read().splitlines()
         resets = [i for i, ln in enumerate(lines) if '"Reset"' in ln]
@@ -598,6 +600,8 @@ def _run(ctx, thorough, pool_bin, work, rng, replay):
             ctx.add_tlc("trace validation (code model) of %s%s (%d records)" % (os.path.basename(tf), "" if attempt == 0 else " after record %d" % offset, nrec), r)
             if r.violation is None:
                 validated_runs += sum(1 for i in resets if i >= offset)
+                if attempt == 0 and sat and lines:
+                    clean_files.append(tf)
                 break
             if r.violation != "postcondition":
                 if not bad_runs:
@@ -610,12 +614,16 @@ def _run(ctx, thorough, pool_bin, work, rng, replay):
             st, en = bounds(pos)
             validated_runs += sum(1 for i in resets if offset <= i < st)
             if st not in bad_runs:
-                mst = model_state_before(cur, pos - offset, work) if rej else None
+                mst = None
+                if rej and explained[0] < 2:
+                    explained[0] += 1
+                    mst = model_state_before(cur, pos - offset, work)
                 ctx.drift("code model ThreadPool.tla (recorded runs)",
                           "record %d of a run (%s) is not explained by the code model; model state before it: %s - the run satisfies C08 as judged by Trace_PoolProp" % (
                               pos - st, json.dumps(lines[min(pos - 1, len(lines) - 1)])[:300], json.dumps(mst)),
                           {"kind": "trace", "rejected_at": pos - st, "model_state": mst, "log": lines[st:en][:3000]})
-            if en >= len(lines) or attempt == 3:
+            # one inexplicable run must not hide the others - but a tree that drifts everywhere is not worth many passes
+            if en >= len(lines) or attempt == 3 or len(ctx.drifts) >= 8:
                 break
             offset = en
             cur = os.path.join(work, "rest-%d-%d.ndjson" % (fi, attempt))
@@ -638,7 +646,7 @@ def _run(ctx, thorough, pool_bin, work, rng, replay):
 
     # ---------------------------------------------------------------- 6. the binding rejects corrupted inputs
     if not ctx.violations:
-        selftest(ctx, pool_bin, work, dall, behaviours)
+        selftest(ctx, pool_bin, work, clean_files, behaviours if not fails else None)
 
     ctx.cov["evaluations"] = n_ok + len(fails) + total_runs
     ctx.cov["distinct_nontrivial"] = nontrivial_beh + len(fingerprints)
@@ -658,19 +666,30 @@ def _run(ctx, thorough, pool_bin, work, rng, replay):
     return ctx.finish()
 
 
-def selftest(ctx, pool_bin, work, dall, behaviours):
+def selftest(ctx, pool_bin, work, clean_files, behaviours):
     """Both levels must see what they are meant to see, otherwise the check is blind (exit 2):
     - a log corrupted in a hook detail is rejected by the code model and ACCEPTED by the property-level judge
       (such a difference on a real tree would be SPEC-DRIFT, not a violation);
     - a log corrupted in what the property is about (a body entered twice, a body never entered, a call that
       never returned, live workers at the end) is rejected by both;
-    - a behaviour with a corrupted expectation is reported as a divergence by the gated replay."""
-    lines = open(dall).read().splitlines()[:4000]
-    # cut at a run boundary
-    last_reset = max(i for i, ln in enumerate(lines) if '"Reset"' in ln)
-    if last_reset > 0:
-        lines = lines[:last_reset]
-    recs = [json.loads(ln) for ln in lines]
+    - a behaviour with a corrupted expectation is reported as a divergence by the gated replay.
+    The corruptions are applied to material of THIS run that both levels accepted; on a tree whose runs the code
+    model no longer explains (drift) there may be none - the part is then skipped and said so."""
+    recs = []
+    for tf in clean_files:
+        lines = open(tf).read().splitlines()[:4000]
+        resets = [i for i, ln in enumerate(lines) if '"Reset"' in ln]
+        if len(resets) >= 2:
+            lines = lines[:resets[-1]]          # cut at a run boundary
+        elif len(lines) == 4000:
+            continue
+        cand = [json.loads(ln) for ln in lines]
+        if any(r["ev"] == "Task_Start" for r in cand) and any(r["ev"] == "Quiesced" for r in cand):
+            recs = cand
+            break
+    if not recs:
+        ctx.add_part("binding self-test", skipped="no recorded material of this run was accepted by both levels (see SPEC-DRIFT lines)")
+        return
     muts = []   # (what, records, the property-level judge must reject it)
 
     def first(pred):
@@ -727,9 +746,9 @@ def selftest(ctx, pool_bin, work, dall, behaviours):
         if not prop and not sat:
             raise vlib.ToolError("binding self-test: Trace_PoolProp rejected a log that differs only in a hook detail (%s): %s" % (what, out[("jg", what)][1][:2]))
         judged += 1
-    # corrupted behaviours
+    # corrupted behaviours (only when the uncorrupted ones were followed by the real code in this run)
     bad = []
-    for b in behaviours:
+    for b in (behaviours or []):
         k = next((j for j, s in enumerate(b["steps"]) if s["a"] == "Worker_Recv" and s["x"] == 0), None)
         if k is not None and b.get("complete"):
             m = copy.deepcopy(b)
@@ -737,7 +756,7 @@ def selftest(ctx, pool_bin, work, dall, behaviours):
             m["id"] = 900001
             bad.append(("Worker_Recv expected to see Shutdown where a task is queued", m))
             break
-    for b in behaviours:
+    for b in (behaviours or []):
         k = next((j for j, s in enumerate(b["steps"]) if s["a"] == "Worker_Run"), None)
         if k is not None and b.get("complete"):
             m = copy.deepcopy(b)
